@@ -38,8 +38,8 @@ theorem plain_write_bytes (f f' : File) (o l l' p : Nat) (bs : Bytes) (hl' : l' 
 
 /-- `Hread` on a contiguous element delivers the slice of its bytes -/
 theorem plain_read_bytes (f : File) (o l p n : Nat) (bs : Bytes) (hpn : p + n ≤ l)
-    (h : diskRead f.disk (o + p) n = some bs) : bs = specRead (f.bytesAt o l) p n := by
-  rw [diskRead_eq _ _ _ _ h]
+    (h : f.hpRead (o + p) n = some bs) : bs = specRead (f.bytesAt o l) p n := by
+  rw [hpRead_eq _ _ _ _ h]
   unfold specRead File.bytesAt
   apply List.ext_getElem?
   intro i
